@@ -238,6 +238,14 @@ func vhBuild(ctx int, s []byte) vhCtx {
 		c.symStart = 8 * len(p)
 		c.stream = append(p, s...)
 		return c
+	case ctx == 8:
+		// as 7, followed by 20 zero bytes: whatever goes wrong in the window, the input does not run out
+		w.bits(0, 1)
+		w.bits(0, 2)
+		p := w.bytes()
+		c.symStart = 8 * len(p)
+		c.stream = append(append(p, s...), make([]byte, 20)...)
+		return c
 	case ctx == 4:
 		// final stored block: header concrete, LEN/NLEN/data symbolic
 		w.bits(1, 1)
@@ -385,13 +393,15 @@ func VerifRdOracle() {
 		verifrt.Assert(sk != 1, "REF:stdlib-rejects")
 	}
 
-	verifrt.Assert(stalls == 0, "C03:progress")
-	verifrt.Assert(fk != 0 && fk != 4, "C03:error-kind-domain")
 	if strict.status == refComplete {
+		// a complete valid stream: C02 owns the verdict
 		verifrt.Cover("complete")
 		verifrt.Assert(fk == 1, "C02:eof")
 		verifrt.Assert(vhEqual(fout, strict.out), "C02:bytes")
-	} else {
+	}
+	verifrt.Assert(stalls == 0, "C03:progress")
+	verifrt.Assert(fk != 0 && fk != 4, "C03:error-kind-domain")
+	if strict.status != refComplete {
 		// not a complete well-formed stream
 		if perm.status != refComplete {
 			verifrt.Assert(fk != 1, "C03:false-eof")
@@ -413,7 +423,13 @@ func VerifRdOracle() {
 		}
 		if strict.status == refCorrupt && perm.status == refCorrupt {
 			verifrt.Cover("corrupt")
-			verifrt.Assert(fk == 3 || fk == 2, "C03:corrupt-kind")
+			if 8*len(c.stream)-perm.endBit >= 128 {
+				// the defect lies well inside the input (16 or more bytes follow it):
+				// "the input ran out before the defect" is not an excuse
+				verifrt.Assert(fk == 3, "C03:corrupt-reported-as-truncated")
+			} else {
+				verifrt.Assert(fk == 3 || fk == 2, "C03:corrupt-kind")
+			}
 		}
 	}
 	// sticky error
